@@ -354,6 +354,8 @@ func init() {
 	})
 	reg("github.com/ipfs/go-cid.Decode", func(m *Machine, fn *ssa.Function, a []Value) Value {
 		ok := m.in.UF("validcid", SBool, a[0].(*Term))
+		m.noteUF("validcid", a[0].(*Term))
+		m.addPC(m.in.Implies(ok, m.in.Eq(m.in.StrLen(a[0].(*Term)), m.in.I64(59))))
 		ct := fn.Signature.Results().At(0).Type()
 		if m.branch(ok) {
 			return TupleVal{m.zero(ct), nilIface}
@@ -631,12 +633,14 @@ func (m *Machine) paramField(name, key string) Pointer {
 	c := m.paramCell(name)
 	pt := m.paramProto[name]
 	var psp *ssa.Function
+	m.eng.methodMu.Lock()
 	ms := m.eng.prog.MethodSets.MethodSet(pt)
 	for i := 0; i < ms.Len(); i++ {
 		if ms.At(i).Obj().Name() == "ParamSetPairs" {
 			psp = m.eng.prog.MethodValue(ms.At(i))
 		}
 	}
+	m.eng.methodMu.Unlock()
 	if psp == nil {
 		m.unsupported("no ParamSetPairs on %s", pt)
 	}
